@@ -822,10 +822,19 @@ fn run_preempt(ctx: &mut Ctx, d: &SubjDesc, max_triples: usize) {
                 }
             }
         }
-        let mut bs: Vec<Q> = valid.iter().filter(|b| key(b).map_or(false, |(bm, _, bk)| bm == m && bk.abs_diff(k) > 40)).take(3).cloned().collect();
-        if let Some(w) = writers.iter().find(|w| *w != a && valid.contains(w)) {
+        // interfering queries: same method on another symbol, same method and symbol far away, another writer
+        let mut bs: Vec<Q> = Vec::new();
+        if let Some(b) = valid.iter().find(|b| key(b).map_or(false, |(bm, bc, _)| bm == m && bc != c)) {
+            bs.push(b.clone());
+        }
+        if let Some(b) = valid.iter().rev().find(|b| key(b).map_or(false, |(bm, bc, _)| bm == m && bc != c)) {
+            bs.push(b.clone());
+        }
+        bs.extend(valid.iter().filter(|b| key(b).map_or(false, |(bm, bc, bk)| bm == m && bc == c && bk.abs_diff(k) > 40)).take(2).cloned());
+        if let Some(w) = writers.iter().find(|w| *w != a && valid.contains(w) && key(w).map_or(true, |(wm, _, _)| wm != m)) {
             bs.push(w.clone());
         }
+        bs.dedup();
         if bs.is_empty() {
             bs = valid.iter().filter(|b| *b != a).take(2).cloned().collect();
         }
